@@ -190,10 +190,12 @@ func verifNestedCompound(depth int) []byte {
 	size := uint32(4)
 	msg := inner
 	for d := 0; d < depth; d++ {
-		// compound v3: class 6, version 3, one member "m\0", byte offset (1 byte since size < 256), member type
+		// compound, version 3, as this library lays it out: header (class 6 | version 3 << 4, bit field = member
+		// count, size), then properties = member count (4 bytes), and per member: name\0, byte offset (4 bytes), datatype
 		hdr := []byte{0x36, 0x01, 0x00, 0x00, byte(size), byte(size >> 8), byte(size >> 16), byte(size >> 24)}
-		member := append([]byte{'m', 0, 0}, msg...)
-		msg = append(hdr, member...)
+		props := []byte{1, 0, 0, 0, 'm', 0, 0, 0, 0, 0}
+		props = append(props, msg...)
+		msg = append(hdr, props...)
 	}
 	return msg
 }
@@ -205,8 +207,13 @@ func VerifH_C07_datatype_nested() {
 	msg[len(msg)-11] = vrt.U8()
 	vrt.StepBudget(2000000)
 	dt, err := ParseDatatypeMessage(msg)
-	if err == nil && dt.Class == DatatypeCompound {
-		_, _ = ParseCompoundType(dt)
+	vrt.AssertNoErr(err, "nested-compound-parses")
+	vrt.Assert(dt.Class == DatatypeCompound, "nested-compound-class")
+	ct, err := ParseCompoundType(dt)
+	vrt.AssertNoErr(err, "nested-compound-members-parse")
+	vrt.Assert(len(ct.Members) == 1, "nested-compound-member-count")
+	if depth > 1 && len(ct.Members) == 1 {
+		vrt.Assert(ct.Members[0].Type.Class == DatatypeCompound, "nested-member-is-compound")
 	}
 	vrt.Covered("nested-parsed")
 }
